@@ -117,6 +117,8 @@ class SignInterp:
                 return not self.boolean(e.args[0])
             if name == "bool" and len(e.args) == 1:
                 return self.boolean(e.args[0])
+            if name == "where" and len(e.args) == 3:
+                return self.boolean(e.args[1]) if self.boolean(e.args[0]) else self.boolean(e.args[2])
         raise Unsupported(f"truth value of `{ast.unparse(e)[:50]}`")
 
     # ------------------------------------------------------------------ statements
@@ -331,16 +333,10 @@ def rule_segment(run: Run, prog: Program) -> int:
     fn = prog.body_of(fn)
     from geolint.dunder import _single_assign_env
 
-    env = _single_assign_env(fn)
-    tol_names = {p.arg for p in fn.params() if "tol" in p.arg} | {k for k in env if "tol" in k.lower()} | {"EQ_TOL_ABS", "EQ_TOL_REL"}
+    region = prog.private_helpers(fn)
     n = 0
-    rets = [r for r in ast.walk(fn.node) if isinstance(r, ast.Return) and r.value is not None]
-    main = [r for r in rets if any(isinstance(x, ast.Compare) for x in ast.walk(_expand(r.value, env)))]
-    if not main:
-        run.add("E11.S", fn.short, "bounds", UNDECIDED, "no return expression with bound comparisons found", fn.loc)
-        return 0
-    for r in main:
-        expr = _expand(r.value, env)
+
+    def conjuncts(expr: ast.AST) -> list[ast.AST]:
         conj: list[ast.AST] = []
 
         def flat(e):
@@ -354,46 +350,65 @@ def rule_segment(run: Run, prog: Program) -> int:
                 conj.append(e)
 
         flat(expr)
-        loc = f"{fn.module.rel}:{r.lineno}"
-        # (1) line membership is a conjunct
-        n += 1
-        def is_line_membership(c: ast.AST, depth: int = 0) -> bool:
-            if any(isinstance(x, ast.Call) and isinstance(x.func, ast.Attribute) and x.func.attr == "contains" for x in ast.walk(c)):
-                return True
-            return depth < 3 and isinstance(c, ast.Name) and c.id in env and is_line_membership(env[c.id], depth + 1)
+        return conj
 
-        has_line = any(is_line_membership(c) for c in conj)
+    # (1) membership in the supporting line is a conjunct of what the anchored function returns
+    env0 = _single_assign_env(fn)
+
+    def is_line_membership(c: ast.AST, depth: int = 0) -> bool:
+        if any(isinstance(x, ast.Call) and isinstance(x.func, ast.Attribute) and x.func.attr == "contains" for x in ast.walk(c)):
+            return True
+        return depth < 3 and isinstance(c, ast.Name) and c.id in env0 and is_line_membership(env0[c.id], depth + 1)
+
+    main0 = [r for r in ast.walk(fn.node) if isinstance(r, ast.Return) and r.value is not None and not (
+        isinstance(r.value, ast.Call) and getattr(r.value.func, "attr", "") in ("empty", "zeros"))]
+    if main0:
+        n += 1
+        r = main0[-1]
+        conj = conjuncts(_expand(r.value, env0))
+        has_line = len(conj) > 1 and any(is_line_membership(c) for c in conj)
         run.add("E11.S", fn.short, "supporting line", PROVEN if has_line else UNDECIDED,
-                "membership in the supporting line is a conjunct of the result" if has_line else "no `<line>.contains(point)` conjunct recognised", loc)
-        # (2) bound comparisons
-        comps = [c for c in conj if isinstance(c, ast.Compare)]
-        if len(comps) < 2:
-            run.add("E11.S", fn.short, "bounds", UNDECIDED, f"{len(comps)} bound comparison(s) among the conjuncts, expected two", loc)
-            continue
-        for c in comps:
-            parts = [c.left] + c.comparators
-            for (a, op, b) in zip(parts, c.ops, parts[1:]):
-                n += 1
-                if isinstance(op, (ast.Gt, ast.GtE)):
-                    a, b = b, a
-                    op = ast.Lt() if isinstance(op, ast.Gt) else ast.LtE()
-                if not isinstance(op, (ast.Lt, ast.LtE)):
-                    run.add("E11.S", fn.short, ast.unparse(c)[:60], UNDECIDED, "not an order comparison", loc)
-                    continue
-                # a (<|<=) b : slack on the permissive side is `+tol` in b or `-tol` in a
-                good = _slack(b, tol_names, +1) or _slack(a, tol_names, -1)
-                bad = _slack(b, tol_names, -1) or _slack(a, tol_names, +1)
-                label = ast.unparse(c)[:60]
-                if bad:
-                    run.add("E11.S", fn.short, label, VIOLATION,
-                            "the tolerance tightens this bound instead of widening it: the end point (x exactly on the bound) is excluded, and so is "
-                            "everything within the tolerance of it", loc)
-                elif good or isinstance(op, ast.LtE):
-                    run.add("E11.S", fn.short, label, PROVEN, "closed bound (" + ("widened by the tolerance" if good else "non-strict") + ")", loc)
-                else:
-                    run.add("E11.S", fn.short, label, VIOLATION,
-                            "strict comparison without slack: the end point of the segment (x exactly on the bound) is reported outside - the segment "
-                            "is a closed set", loc)
+                "membership in the supporting line is a conjunct of the result" if has_line else "no `<line>.contains(point)` conjunct recognised",
+                f"{fn.module.rel}:{r.lineno}")
+    # (2) the bound comparisons, wherever the region computes them
+    judged = False
+    for g in region:
+        env = _single_assign_env(g)
+        tol_names = {p.arg for p in g.params() if "tol" in p.arg} | {k for k in env if "tol" in k.lower()} | {"EQ_TOL_ABS", "EQ_TOL_REL"}
+        for r in [x for x in ast.walk(g.node) if isinstance(x, ast.Return) and x.value is not None]:
+            comps = [c for c in conjuncts(_expand(r.value, env)) if isinstance(c, ast.Compare)]
+            if not comps:
+                continue
+            loc = f"{g.module.rel}:{r.lineno}"
+            if len(comps) < 2 and not any(len(c.ops) == 2 for c in comps):
+                continue
+            judged = True
+            for c in comps:
+                parts = [c.left] + c.comparators
+                for (a, op, b) in zip(parts, c.ops, parts[1:]):
+                    n += 1
+                    if isinstance(op, (ast.Gt, ast.GtE)):
+                        a, b = b, a
+                        op = ast.Lt() if isinstance(op, ast.Gt) else ast.LtE()
+                    if not isinstance(op, (ast.Lt, ast.LtE)):
+                        run.add("E11.S", g.short, ast.unparse(c)[:60], UNDECIDED, "not an order comparison", loc)
+                        continue
+                    good = _slack(b, tol_names, +1) or _slack(a, tol_names, -1)
+                    bad = _slack(b, tol_names, -1) or _slack(a, tol_names, +1)
+                    label = ast.unparse(c)[:60]
+                    if bad:
+                        run.add("E11.S", g.short, label, VIOLATION,
+                                "the tolerance tightens this bound instead of widening it: the end point (x exactly on the bound) is excluded, and so is "
+                                "everything within the tolerance of it", loc)
+                    elif good or isinstance(op, ast.LtE):
+                        run.add("E11.S", g.short, label, PROVEN, "closed bound (" + ("widened by the tolerance" if good else "non-strict") + ")", loc)
+                    else:
+                        run.add("E11.S", g.short, label, VIOLATION,
+                                "strict comparison without slack: the end point of the segment (x exactly on the bound) is reported outside - the segment "
+                                "is a closed set", loc)
+    if not judged:
+        n += 1
+        run.add("E11.S", fn.short, "bounds", UNDECIDED, "no returned conjunction with two bound comparisons found in contains or its private helpers", fn.loc)
     return n
 
 
@@ -443,76 +458,84 @@ def rule_polygon(run: Run, prog: Program) -> int:
     fn = prog.body_of(fn)
     from geolint.dunder import _single_assign_env
 
-    env = _single_assign_env(fn)
+    region = prog.private_helpers(fn)
     n = 0
+    parity_seen = False
+    for g in region:
+        env = _single_assign_env(g)
+        gps = g.params()
+        point = gps[1].arg if len(gps) > 1 else None
 
-    def derives_from_edge_membership(e: ast.AST, seen: frozenset = frozenset()) -> bool:
-        for x in ast.walk(e):
-            if isinstance(x, ast.Call) and isinstance(x.func, ast.Attribute) and x.func.attr == "contains":
-                base = x.func.value
-                src = ast.unparse(base)
-                if "edges" in src or (isinstance(base, ast.Name) and base.id in env and "edges" in ast.unparse(env[base.id])):
-                    # the argument must be the query point, not the ray intersections
-                    arg_src = " ".join(ast.unparse(a) for a in x.args)
-                    if fn.params()[1].arg in arg_src:
-                        return True
-            if isinstance(x, ast.Name) and x.id in env and x.id not in seen and derives_from_edge_membership(env[x.id], seen | {x.id}):
-                return True
-        return False
+        def derives_from_edge_membership(e: ast.AST, seen: frozenset = frozenset()) -> bool:
+            for x in ast.walk(e):
+                if isinstance(x, ast.Call) and isinstance(x.func, ast.Attribute) and x.func.attr == "contains":
+                    base = x.func.value
+                    src = ast.unparse(base)
+                    if "edges" in src or (isinstance(base, ast.Name) and base.id in env and "edges" in ast.unparse(env[base.id])):
+                        arg_src = " ".join(ast.unparse(a) for a in x.args)
+                        if point is not None and point in arg_src:
+                            return True
+                if isinstance(x, ast.Name) and x.id in env and x.id not in seen and derives_from_edge_membership(env[x.id], seen | {x.id}):
+                    return True
+            return False
 
-    # statements that accumulate into the returned name
-    ret_names = {r.value.id for r in ast.walk(fn.node) if isinstance(r, ast.Return) and isinstance(r.value, ast.Name)}
-    parity_lines = [st for st in ast.walk(fn.node) if isinstance(st, (ast.Assign, ast.AugAssign, ast.Return)) and st.value is not None and any(
-        isinstance(x, ast.BinOp) and isinstance(x.op, ast.Mod) for x in ast.walk(st.value))]
-    if not parity_lines:
-        run.add("E11.P", fn.short, "parity", UNDECIDED, "no crossing-number parity (`% 2`) found: another algorithm is used; boundary clause not judged", fn.loc)
-    else:
-        n += 1
-        ored = []
-        for st in ast.walk(fn.node):
-            if isinstance(st, ast.AugAssign) and isinstance(st.op, ast.BitOr) and isinstance(st.target, ast.Name) and st.target.id in ret_names:
-                ored.append((st, st.value))
-            elif isinstance(st, ast.Return) and st.value is not None:
-                for x in ast.walk(st.value):
-                    if isinstance(x, ast.BinOp) and isinstance(x.op, ast.BitOr):
-                        ored.append((st, x))
-            elif isinstance(st, ast.Assign) and isinstance(st.value, ast.BinOp) and isinstance(st.value.op, ast.BitOr) and len(st.targets) == 1 \
-                    and isinstance(st.targets[0], ast.Name) and st.targets[0].id in ret_names:
-                ored.append((st, st.value))
-            elif isinstance(st, ast.Assign) and isinstance(st.value, ast.Call) and getattr(st.value.func, "attr", "") == "logical_or":
-                ored.append((st, st.value))
-        p0 = parity_lines[0]
-        loc = f"{fn.module.rel}:{p0.lineno}"
-        hit = [st for st, e in ored if derives_from_edge_membership(e)]
-        if hit:
-            run.add("E11.P", fn.short, "boundary", PROVEN, f"`{norm_stmt(hit[0])[:70]}` adds the points that lie on an edge to the parity result", loc)
-        elif ored:
-            run.add("E11.P", fn.short, "boundary", UNDECIDED, "the result is OR-ed with something that was not recognised as edge membership of the query point", loc)
-        else:
-            run.add("E11.P", fn.short, "boundary", VIOLATION,
-                    "the crossing-number parity is returned without adding the points that lie on an edge: for a point ON the boundary the ray "
-                    "starts on an edge and the parity is arbitrary, so edge points and vertices of the closed polygon are reported outside "
-                    "depending on the side the ray leaves", loc)
-    # 3D branch: coplanarity conjoined
-    for st in ast.walk(fn.node):
-        if isinstance(st, ast.If) and "dim" in ast.unparse(st.test):
-            rets = [r for r in ast.walk(st) if isinstance(r, ast.Return) and r.value is not None]
-            plane_names = {k for k, v in env.items() if isinstance(v, ast.Call) and isinstance(v.func, ast.Attribute) and v.func.attr == "contains"
-                           and "_plane" in ast.unparse(v.func.value)}
-            final = [r for r in rets if any(isinstance(x, ast.Call) and getattr(x.func, "attr", "") == "contains" for x in ast.walk(r.value))]
+        ret_names = {r.value.id for r in ast.walk(g.node) if isinstance(r, ast.Return) and isinstance(r.value, ast.Name)}
+        parity_lines = [st for st in ast.walk(g.node) if isinstance(st, (ast.Assign, ast.AugAssign, ast.Return)) and st.value is not None and any(
+            isinstance(x, ast.BinOp) and isinstance(x.op, ast.Mod) for x in ast.walk(st.value))]
+        if parity_lines:
+            parity_seen = True
+            n += 1
+            ored = []
+            for st in ast.walk(g.node):
+                if isinstance(st, ast.AugAssign) and isinstance(st.op, ast.BitOr) and isinstance(st.target, ast.Name) and st.target.id in ret_names:
+                    ored.append((st, st.value))
+                elif isinstance(st, ast.Return) and st.value is not None:
+                    for x in ast.walk(st.value):
+                        if isinstance(x, ast.BinOp) and isinstance(x.op, ast.BitOr):
+                            ored.append((st, x))
+                        elif isinstance(x, ast.Call) and getattr(x.func, "attr", "") == "logical_or":
+                            ored.append((st, x))
+                elif isinstance(st, ast.Assign) and isinstance(st.value, ast.BinOp) and isinstance(st.value.op, ast.BitOr) and len(st.targets) == 1 \
+                        and isinstance(st.targets[0], ast.Name) and st.targets[0].id in ret_names:
+                    ored.append((st, st.value))
+                elif isinstance(st, ast.Assign) and isinstance(st.value, ast.Call) and getattr(st.value.func, "attr", "") == "logical_or":
+                    ored.append((st, st.value))
+            p0 = parity_lines[0]
+            loc = f"{g.module.rel}:{p0.lineno}"
+            hit = [st for st, e in ored if derives_from_edge_membership(e)]
+            if hit:
+                run.add("E11.P", g.short, "boundary", PROVEN, f"`{norm_stmt(hit[0])[:70]}` adds the points that lie on an edge to the parity result", loc)
+            elif ored:
+                run.add("E11.P", g.short, "boundary", UNDECIDED, "the result is OR-ed with something that was not recognised as edge membership of the query point", loc)
+            else:
+                run.add("E11.P", g.short, "boundary", VIOLATION,
+                        "the crossing-number parity is returned without adding the points that lie on an edge: for a point ON the boundary the ray "
+                        "starts on an edge and the parity is arbitrary, so edge points and vertices of the closed polygon are reported outside "
+                        "depending on the side the ray leaves", loc)
+        # embedded polygons: coplanarity conjoined with the projected test
+        plane_names = {k for k, v in env.items() if isinstance(v, ast.Call) and isinstance(v.func, ast.Attribute) and v.func.attr == "contains"
+                       and "_plane" in ast.unparse(v.func.value)}
+        rets = [r for r in ast.walk(g.node) if isinstance(r, ast.Return) and r.value is not None]
+        final = [r for r in rets if any(isinstance(x, ast.Call) and getattr(x.func, "attr", "") == "contains" and "_plane" not in ast.unparse(x.func)
+                                        for x in ast.walk(r.value))]
+        if plane_names or any("_plane" in ast.unparse(r.value) for r in final):
             for r in final:
                 n += 1
                 conj_ok = any(isinstance(x, ast.Name) and x.id in plane_names for x in ast.walk(r.value)) or "_plane" in ast.unparse(r.value)
                 is_and = any(isinstance(x, ast.BinOp) and isinstance(x.op, ast.BitAnd) for x in ast.walk(r.value)) or any(
-                    isinstance(x, ast.BoolOp) and isinstance(x.op, ast.And) for x in ast.walk(r.value))
-                loc = f"{fn.module.rel}:{r.lineno}"
+                    isinstance(x, ast.BoolOp) and isinstance(x.op, ast.And) for x in ast.walk(r.value)) or any(
+                    isinstance(x, ast.Call) and getattr(x.func, "attr", "") == "logical_and" for x in ast.walk(r.value))
+                loc = f"{g.module.rel}:{r.lineno}"
                 if conj_ok and is_and:
-                    run.add("E11.P", fn.short, "supporting plane", PROVEN, "the projected membership is conjoined with membership in the supporting plane", loc)
+                    run.add("E11.P", g.short, "supporting plane", PROVEN, "the projected membership is conjoined with membership in the supporting plane", loc)
                 elif plane_names:
-                    run.add("E11.P", fn.short, "supporting plane", VIOLATION,
+                    run.add("E11.P", g.short, "supporting plane", VIOLATION,
                             f"`{norm_stmt(r)[:70]}` returns the membership of the PROJECTED point without requiring that the point lies in the "
                             f"supporting plane: every point above or below the polygon is reported inside", loc)
                 else:
-                    run.add("E11.P", fn.short, "supporting plane", UNDECIDED, "coplanarity test not recognised", loc)
-            break
+                    run.add("E11.P", g.short, "supporting plane", UNDECIDED, "coplanarity test not recognised", loc)
+    if not parity_seen:
+        n += 1
+        run.add("E11.P", fn.short, "parity", UNDECIDED,
+                "no crossing-number parity (`% 2`) found in contains or its private helpers: another algorithm is used; boundary clause not judged", fn.loc)
     return n
